@@ -3,7 +3,9 @@
    the correspondence run, not verified); schema conformance of all fields is an oracle. *)
 From Coq Require Import Lia Permutation Sorted.
 From RM Require Import Gen.C15Fmt.
-From RM Require Import C15.Model C15.Schema C15.Widths C15.Utf8 C15.Pretty C15.Proofs C15.Proofs2 C15.Proofs3 C15.Proofs4 C15.Proofs5 C15.Proofs6 C15.Proofs7 C15.Scalar C15.Proofs8 C15.Proofs9 C15.Regs C15.Proofs10 C15.Consistent C15.Proofs11 C15.Proofs12 C15.Proofs13 C15.Offsets C15.Proofs14 C15.KeyOrder C15.Proofs15 C15.Proofs16.
+From RM Require Import C15.Model C15.Schema C15.Widths C15.Utf8 C15.Pretty C15.Proofs C15.Proofs2 C15.Proofs3 C15.Proofs4 C15.Proofs5 C15.Proofs6 C15.Proofs7 C15.Scalar C15.Proofs8 C15.Proofs9 C15.Regs C15.Proofs10 C15.Consistent C15.Proofs11 C15.Proofs12 C15.Proofs13 C15.Offsets C15.Proofs14 C15.KeyOrder C15.Proofs15 C15.Proofs16 C15.Float C15.Proofs17.
+From RM Require C19.Model.
+From Flocq Require IEEE754.Binary IEEE754.Bits.
 Open Scope Z_scope.
 
 (* Escaping is total and correct: every JSON value — arbitrary nesting, arbitrary integers,
@@ -698,3 +700,59 @@ Example c15_nonvacuous_regs :
   regs_from_table 0 (s_registers ex_state) = true /\ regs_from_table 1 (s_registers ex_state) = false /\
   regs_from_table 0 [([101; 105; 112], 4198400, 16%nat)] = false /\ regs_from_table 1 [([114; 105; 112], 1, 16%nat); ([114; 56], 2, 16%nat)] = true.
 Proof. vm_compute. repeat split; reflexivity. Qed.
+
+(* ------------------------------------------------------------------ possible_bit_flips[].confidence (binary32)
+   print_json writes the member through `json!`: the f32 is widened to f64 and serde_json prints the shortest decimal that reads
+   back as that f64 (ryu), in ryu's layout.  [render_f32] is that text as a function of the bit pattern, [conf_text_ok bits text]
+   the judgement "text is an RFC 8259 number, it lies in the round-to-nearest-even interval of the widened value (so a correctly
+   rounding reader gets exactly the binary32 back), it is within [0,1], no decimal with fewer digits reads back" - exact integer
+   arithmetic, independent of [render_f32].
+   For EVERY details value (any register count; C19's exact Flocq model of BitFlipDetails::confidence, whose statement list is
+   regenerated from the source) the text the model renders for the confidence is accepted by that judgement.
+   FINITE CHECK (vm_compute) over the 80 classes of details values, extended to all values by C19's confidence_clamp. *)
+Theorem c15_confidence_text : forall d : C19.Model.details,
+  conf_text_ok (C19.Model.confidence_bits d) (render_f32 (C19.Model.confidence_bits d)) = true.
+Proof. exact conf_render_ok. Qed.
+Print Assumptions c15_confidence_text.
+
+(* what the judgement says about an accepted text, for every bit pattern and every text *)
+Theorem c15_confidence_judgement : forall bits t, conf_text_ok bits t = true ->
+  exists m e c k, b32_decode bits = Some (false, m, e) /\ num_value t = Some (false, c, k) /\ json_number t = true /\
+    ((m = 0 /\ c = 0) \/
+     (m <> 0 /\ in_interval m e c k = true /\ scale_cmp c k 1 0 <> Gt /\ no_shorter m e c k = true)).
+Proof. exact conf_text_ok_meaning. Qed.
+Print Assumptions c15_confidence_judgement.
+
+(* the bit-pattern decoder of the judgement reads the same sign, mantissa and exponent as Flocq's b32_of_bits - every 32-bit pattern *)
+Theorem c15_b32_decode : forall bits, 0 <= bits < 4294967296 ->
+  match Binary.B2FF _ _ (Bits.b32_of_bits bits) with
+  | Binary.F754_zero s => b32_decode bits = Some (s, 0, -149)
+  | Binary.F754_finite s m e => b32_decode bits = Some (s, Zpos m, e)
+  | _ => b32_decode bits = None
+  end.
+Proof. exact b32_decode_flocq. Qed.
+Print Assumptions c15_b32_decode.
+
+(* non-vacuity / rejection: the rendering of concrete binary32 values (0.36874998 = 0x3ebccccc prints as the widened double, a power of
+   two, one, zero, the smallest subnormal, a value printed with an exponent, a large one); the judgement rejects a text that denotes
+   another binary32, a longer-than-shortest text, a value above 1, a negative one and five texts that are not RFC 8259 numbers *)
+Example c15_nonvacuous_confidence :
+  render_f32 1052560588 = [48; 46; 51; 54; 56; 55; 52; 57; 57; 55; 54; 49; 53; 56; 49; 52; 50; 49] /\   (* 0.3687499761581421 *)
+  render_f32 1056964608 = [48; 46; 53] /\ render_f32 1065353216 = [49; 46; 48] /\ render_f32 0 = [48; 46; 48] /\
+  render_f32 1 = [49; 46; 52; 48; 49; 50; 57; 56; 52; 54; 52; 51; 50; 52; 56; 49; 55; 101; 45; 52; 53] /\  (* 1.401298464324817e-45 *)
+  render_f32 1266679808 = [49; 54; 55; 55; 55; 50; 49; 54; 46; 48] /\                                     (* 16777216.0 *)
+  render_f32 2139095040 = [110; 117; 108; 108] /\
+  conf_text_ok 1052560588 [48; 46; 51; 54; 56; 55; 52; 57; 57; 55; 54; 49; 53; 56; 49; 52; 50; 49] = true /\
+  conf_text_ok 1052560588 [48; 46; 51; 54; 56; 55; 53] = false /\                                          (* 0.36875: another binary32 *)
+  conf_text_ok 1052560588 [48; 46; 51; 54; 56; 55; 52; 57; 57; 55; 54; 49; 53; 56; 49; 52; 50; 49; 48; 49] = false /\  (* two more digits *)
+  conf_text_ok 1056964608 [53; 101; 45; 49] = true /\ conf_text_ok 1056964608 [48; 46; 53; 48] = true /\   (* 5e-1, 0.50: same digits *)
+  conf_text_ok 1069547520 [49; 46; 53] = false /\ conf_text_ok 3204448256 [45; 48; 46; 53] = false /\       (* 1.5, -0.5 *)
+  json_number [46; 53] = false /\ json_number [48; 46] = false /\ json_number [48; 49; 46; 53] = false /\
+  json_number [49; 101] = false /\ json_number [48; 46; 53; 32] = false /\
+  num_value [45; 49; 50; 46; 53; 48; 69; 43; 48; 51] = Some (true, 1250, 1) /\
+  exists d, C19.Model.confidence_bits d = 1048576000 /\ render_f32 (C19.Model.confidence_bits d) = [48; 46; 50; 53].
+Proof.
+  vm_compute. repeat (split; [reflexivity|]).
+  exists {| C19.Model.d_nc := false; C19.Model.d_null := false; C19.Model.d_low := false; C19.Model.d_nearby := 0; C19.Model.d_poison := false |}.
+  vm_compute. split; reflexivity.
+Qed.
